@@ -80,7 +80,7 @@ def run(tier: str) -> int:
               "group as rounding key) must be bit-identical; sampled rules are replaced by perturbed versions (cone = "
               "descendants) and by identical copies / deep-copied parameters (nothing may change); the caller's params "
               "are deep-compared before/after. distinct = (population, reform).")
-    common.build_and_audit(r, ["C06", "C06Sim"], leanchecker=not quick)
+    common.build_and_audit(r, ["C06", "C06Sim", "C06Fn"], leanchecker=not quick)
     rnd = common.rng("C06")
     t3.run_t3(r, 1000 * common.seed() + 6, 40 if quick else 600)
     t4.run_t4_quick(r, common.rng("C06-T4"), quick)
